@@ -226,7 +226,7 @@ def step (st : State) (w : List String) : State × String :=
     match parseClient c true, qid.toNat?, parseBool cd, parseOpts copts, ttl.toNat?, parseOpts uopts, ans.toNat? with
     | some client, some qid, some cd, some copts?, some ttl, some uopts, some ans =>
       let f := front st client cd copts?
-      let ka := proto == "tcp" && f.copts.any (fun o => o.code == 11)
+      let ka := (proto == "tcp" || proto == "wtcp") && f.copts.any (fun o => o.code == 11)
       match serveLookup encKey (storeFn st.entries) qid cd f.cs with
       | some e =>
         -- `CacheEntry.ToMsg` re-attaches a preserved extended error on its own OPT
